@@ -150,6 +150,40 @@ func runOverlayTest(repo, pkgDir, testName, src string) (bool, string) {
 	return strings.Contains(text, "--- FAIL") || strings.Contains(text, "panic:") || strings.Contains(text, "FAIL"), text
 }
 
+// runOverlayTestV: like runOverlayTest with -v (so that t.Logf lines are in the output) and a longer timeout.
+func runOverlayTestV(repo, pkgDir, testName, src string) (bool, string) {
+	tmp, err := os.MkdirTemp("", "govc-conf-")
+	if err != nil {
+		return false, err.Error()
+	}
+	defer os.RemoveAll(tmp)
+	testFile := filepath.Join(tmp, "zz_conformance_test.go")
+	if err := os.WriteFile(testFile, []byte(src), 0o644); err != nil {
+		return false, err.Error()
+	}
+	ov := map[string]any{"Replace": map[string]string{filepath.Join(repo, pkgDir, "zz_conformance_test.go"): testFile}}
+	ovData, _ := json.Marshal(ov)
+	ovFile := filepath.Join(tmp, "overlay.json")
+	os.WriteFile(ovFile, ovData, 0o644)
+	ctx, cancel := context.WithTimeout(context.Background(), 900*time.Second)
+	defer cancel()
+	cmd := exec.CommandContext(ctx, "go", "test", "-overlay", ovFile, "-vet=off", "-count=1", "-v", "-timeout", "800s", "-run", "^"+testName+"$", "./"+pkgDir)
+	cmd.Dir = repo
+	cmd.Env = append(os.Environ(), "GOFLAGS=-mod=mod", "GOPROXY=off", "GOSUMDB=off", "GOTOOLCHAIN=local", "XDG_CONFIG_HOME="+tmp, "GOCACHE="+goCache())
+	var out bytes.Buffer
+	cmd.Stdout = &out
+	cmd.Stderr = &out
+	err = cmd.Run()
+	text := out.String()
+	if len(text) > 8000 {
+		text = text[:8000]
+	}
+	if err == nil {
+		return false, text
+	}
+	return true, text
+}
+
 func goCache() string {
 	if c := os.Getenv("GOCACHE"); c != "" {
 		return c
